@@ -116,3 +116,8 @@ Definition ls_main (sortf : list bytes -> list bytes) (root keepdir : bytes)
 (* the instance run by the driver *)
 Definition ls_exec := ls isort.
 Definition ls_main_exec := ls_main isort.
+
+(* `robsd-ls ... | wc -l` *)
+Definition ls_count (root keepdir : bytes) (skipB : bool) (lock : option bytes)
+    (ents : list dirent) : nat :=
+  length (ls_exec root keepdir skipB lock ents).
